@@ -102,6 +102,7 @@ func init() {
 	Properties["C02"] = &PropertySpec{
 		Modules: st,
 		Rules: []Rule{
+			R73(),
 			R62(),
 			R11(),
 			R51(),
@@ -334,6 +335,7 @@ func init() {
 	Properties["C15"] = &PropertySpec{
 		Modules: st,
 		Rules: []Rule{
+			R73(),
 			Only(R59(), `^b/`),
 			Only(R56(), `^a/`),
 			Only(R54(), `Compose`, `^no-carried`),
@@ -422,6 +424,7 @@ func init() {
 	Properties["C20"] = &PropertySpec{
 		Modules: []string{"bigtable", "storage"},
 		Rules: []Rule{
+			R73(),
 			R72(),
 			R70(),
 			R60(),
